@@ -18,6 +18,8 @@ Lemma snode_forrange x a1 rest body hasie ie : snode (SForRange x a1 rest body h
   = NFor 0 x (NFunc 0 jn_range (cnode a1 :: map cnode rest)) (NList 0 (bnodes body)) (if hasie then Some (NList 0 (bnodes ie)) else None). Proof. reflexivity. Qed.
 Lemma sdepth_forrange x a1 rest body hasie ie : sdepth (SForRange x a1 rest body hasie ie)
   = S (S (S (Nat.max (Nat.max (cdepth a1) (cdepths rest)) (Nat.max (bdepth body) (bdepth ie))))). Proof. reflexivity. Qed.
+Lemma snode_css e sfx : snode (SCss e sfx) = NCss 0 (match e with Some x => Some (cnode x) | None => None end) sfx. Proof. reflexivity. Qed.
+Lemma sdepth_css e sfx : sdepth (SCss e sfx) = S (S (match e with Some x => cdepth x | None => 0%nat end)). Proof. reflexivity. Qed.
 Lemma snode_switch v cs : snode (SSwitch v cs) = NSwitch 0 (cnode v) (knodes cs). Proof. reflexivity. Qed.
 Lemma bnodes_cons s r : bnodes (BCons s r) = snode s :: bnodes r. Proof. reflexivity. Qed.
 Lemma enodes_else b : enodes (EElse b) = [NIfCond 0 None (NList 0 (bnodes b))]. Proof. reflexivity. Qed.
@@ -164,6 +166,8 @@ Proof.
     destruct (range_items (Z.to_nat (Z.max 0 (l - a))) a l stp) as [|v0 r0].
     + destruct hasie; [destruct (bout (c_ij cf) mode go_print_text env ie); [|discriminate]|]; intro E; inversion E; subst; exact Hc.
     + destruct (for_out _ _ _ _ _); [|discriminate]. intro E; inversion E; subst; exact Hc.
+  - rewrite sout_css. destruct e as [x|]; [destruct (ceval (c_ij cf) env x); [|discriminate]; destruct (scalar_string v); [|discriminate]|];
+      intro E; inversion E; subst; exact Hc.
 Qed.
 
 (* a block: NList pushes an (empty) frame, walks its statements, pops *)
@@ -527,6 +531,29 @@ Proof.
     destruct Hout as [-> Hout]. apply bres_sres; auto.
     apply (go_for_walk x _ body hasie ie IHb IHi (S F') st items text env); auto; try lia.
     intros st1 P1. apply Hev. exact (agrees_pres _ _ _ P1 Ha).
+  - (* css *) intros e sfx f st text env env' Hf Hg Hn Ha Hc E. rewrite sout_css in E.
+    rewrite sdepth_css in Hf. destruct f as [|F]; [lia|].
+    assert (Hmain : env' = env /\ bres (walk cf (S F) (snode (SCss e sfx))) st text).
+    { unfold bres0. rewrite walk_unfold, snode_css. cbn [walk_node].
+      match goal with |- context [set_cur st ?p] => set (st1 := set_cur st p) end.
+      assert (P1 : pres st st1) by apply pres_set_cur.
+      destruct e as [x|].
+      - destruct (ceval (c_ij cf) env x) as [v|] eqn:Ev; [|discriminate]. destruct (scalar_string v) as [str|] eqn:Es; [|discriminate].
+        inversion E; subst. clear E. split; [reflexivity|].
+        destruct (scalar_string_ok v str Es) as (_ & Hvs & _).
+        destruct (go_eval F x st1 v env' (agrees_pres _ _ _ P1 Ha) Hc ltac:(lia) Ev) as (st2 & E2 & P2).
+        pose proof (pres_trans _ _ _ P1 P2) as P.
+        unfold mbind at 1. unfold mbind at 1. rewrite E2. unfold mbind at 1. rewrite Hvs. cbn [lift ret]. change s_dash with [45].
+        destruct (write_wok ((str ++ [45]) ++ sfx) st2 (wsame_wok _ _ (pres_wsame _ _ P) Hg)) as (st3 & E3 & W3 & C3 & M3).
+        unfold mbind at 1. rewrite E3. exists st3, [(str ++ [45]) ++ sfx], VUndef. split; [reflexivity|].
+        split; [exact (wrote_l _ _ _ _ (pres_wsame _ _ P) W3)|]. split; [cbn; apply app_nil_r|].
+        split; [rewrite M3; apply P|rewrite C3; apply P].
+      - inversion E; subst. clear E. split; [reflexivity|].
+        unfold mbind at 1. cbn [ret app].
+        destruct (write_wok text st1 (wsame_wok _ _ (pres_wsame _ _ P1) Hg)) as (st3 & E3 & W3 & C3 & M3).
+        unfold mbind at 1. rewrite E3. exists st3, [text], VUndef. split; [reflexivity|].
+        split; [exact (wrote_l _ _ _ _ (pres_wsame _ _ P1) W3)|]. split; [cbn; apply app_nil_r|]. split; [exact M3|exact C3]. }
+    destruct Hmain as (-> & Hbres). apply bres_sres; auto.
   - (* BNil *) intros f st text env Hf Hg Hn Ha Hc E. rewrite bout_nil in E. inversion E; subst. exists st, [].
     split; [reflexivity|]. split; [apply wsame_wrote, wsame_refl|auto].
   - (* BCons *) intros s IHs r IHr f st text env Hf Hg Hn Ha Hc E. rewrite bout_cons in E. rewrite bdepth_cons in Hf.
